@@ -1,9 +1,207 @@
-/- C14 property theorems (being filled in). -/
-import BV.C14.Model
+/-
+C14 property theorems: the deployment state reported by btcd's `thresholdState` (model) equals the
+BIP9 / speedy-trial state machine evaluated at the window boundaries of the queried block's own
+ancestor chain (Spec), for every header tree, deployment definition, query point and query order.
+Only statements + non-vacuity examples + pins live here; helper lemmas are in Lemmas.lean.
+
+Hypothesis used throughout (`Wf net n`): the confirmation window is at least 2 and the median time
+past never decreases along the queried block's chain (implied by the timestamp rule every accepted
+header obeys, see `timeRule_implies_mtpMono`).
+-/
+import BV.C14.Lemmas
+import BV.C14.MtpMono
+import BV.C14.Shipped
 import BV.Generated.C14
 namespace BV.C14
-open Spec
+open Spec Model Lemmas
 
-theorem pin_vbTopBits : Generated.C14.vbTopBits = (VB_TOP_BITS : Int) := by decide
+/-! ### cache soundness and state = Spec -/
+
+/-- CacheOk (every cached entry is the BIP9 state of its node) is preserved by every query,
+    whatever node of whatever branch is asked. -/
+theorem cache_sound (net : Net) (d : Dep) (c : Cache) (n : Node)
+    (hwf : Wf net n) (hc : CacheOk net d c) : CacheOk net d (thresholdState net d c n).1 := by
+  obtain ⟨c', h, hc'⟩ := thresholdState_ok net d c n hwf.1 hwf.2 hc
+  rw [h]; exact hc'
+
+/-- with a sound cache, `thresholdState` answers exactly the Spec state (never panics). -/
+theorem state_eq_spec (net : Net) (d : Dep) (c : Cache) (n : Node)
+    (hwf : Wf net n) (hc : CacheOk net d c) :
+    (thresholdState net d c n).2 = some (state net d n) := by
+  obtain ⟨c', h, _⟩ := thresholdState_ok net d c n hwf.1 hwf.2 hc
+  rw [h]
+
+/-- Every history of queries (deployment states and next-block versions, on any nodes of any
+    branches, in any order) on a fresh chain instance is answered exactly as the Spec answers. -/
+theorem history_eq_spec (net : Net) (deps : List Dep) (qs : List Query)
+    (hq : ∀ q ∈ qs, Wf net q.node) :
+    (runQueries net (fresh deps) qs).2 = qs.map (answer net deps) := by
+  have := (runQueries_ok net qs (fresh deps) hq (allOk_fresh net deps)).1
+  simpa [fresh, Function.comp_def] using this
+
+/-- …and every cache of the instance still satisfies the invariant afterwards. -/
+theorem cache_sound_history (net : Net) (deps : List Dep) (qs : List Query)
+    (hq : ∀ q ∈ qs, Wf net q.node) : AllOk net (runQueries net (fresh deps) qs).1 :=
+  (runQueries_ok net qs (fresh deps) hq (allOk_fresh net deps)).2.1
+
+/-- The answer to a query does not depend on which other blocks or forks were queried earlier. -/
+theorem query_order_independent (net : Net) (deps : List Dep) (qs₁ qs₂ : List Query) (q : Query)
+    (h₁ : ∀ x ∈ qs₁, Wf net x.node) (h₂ : ∀ x ∈ qs₂, Wf net x.node) (hq : Wf net q.node) :
+    (runQuery net (runQueries net (fresh deps) qs₁).1 q).2 =
+      (runQuery net (runQueries net (fresh deps) qs₂).1 q).2 := by
+  have a₁ := runQueries_ok net qs₁ (fresh deps) h₁ (allOk_fresh net deps)
+  have a₂ := runQueries_ok net qs₂ (fresh deps) h₂ (allOk_fresh net deps)
+  rw [(runQuery_ok net _ q hq a₁.2.1).1, (runQuery_ok net _ q hq a₂.2.1).1, a₁.2.2, a₂.2.2]
+
+example : Wf ⟨2, 2⟩ [⟨2, 0x20000001, 1002⟩, ⟨1, 0x20000001, 1001⟩, ⟨0, 0x20000000, 1000⟩] :=
+  ⟨by decide, by decide⟩
+
+/-- the timestamp rule (`time > MTP(parent)`, enforced on every accepted header) implies the
+    monotonicity hypothesis. -/
+theorem timeRule_implies_mtpMono (n : Node) (h : timeRule n = true) : mtpMono n = true :=
+  MtpMono.timeRule_mtpMono n h
+
+/-! ### the state machine -/
+
+def allowedEdge : St → St → Bool
+  | .defined, .defined | .defined, .started | .defined, .failed
+  | .started, .started | .started, .lockedIn | .started, .failed
+  | .lockedIn, .lockedIn | .lockedIn, .active
+  | .active, .active | .failed, .failed => true
+  | _, _ => false
+
+/-- one window step only ever follows an edge of the BIP9 diagram. -/
+theorem step_follows_bip9_edges (net : Net) (d : Dep) (st : St) (b : Node) :
+    allowedEdge st (step net d st b) = true := by
+  cases st <;> simp only [step]
+  · by_cases h1 : (!speedy d && ended d b) = true <;> by_cases h2 : started d b = true <;>
+      simp [h1, h2, allowedEdge]
+  · by_cases h1 : (!speedy d && ended d b) = true <;> by_cases h2 : (speedy d && ended d b) = true <;>
+      by_cases h3 : threshold net d ≤ votes net d b <;> simp [h1, h2, h3, allowedEdge]
+  · by_cases h1 : eligible d b = true <;> simp [h1, allowedEdge]
+  · rfl
+  · rfl
+
+/-- Active is never left: on every descendant (any branch growing from `n`) the state is Active. -/
+theorem active_terminal (net : Net) (d : Dep) (p n : Node) (h : state net d n = .active) :
+    state net d (p ++ n) = .active := by
+  unfold state at *
+  by_cases hf : forced d n = true
+  · simp [forced_descendant d p n hf]
+  · by_cases hf' : forced d (p ++ n) = true
+    · simp [hf']
+    · simp only [hf, hf', if_false, Bool.false_eq_true] at *
+      obtain ⟨j, hj, hk⟩ := bip9_descendant net d p n
+      rw [hj]; exact winState_active_stable net d _ _ (by rw [hk]; exact h) j
+
+/-- Failed is never left, except by the always-active height override (by design it forces Active
+    whatever the BIP9 state was; see `failed_overridden_only_by_always_active`). -/
+theorem failed_terminal (net : Net) (d : Dep) (p n : Node) (h : state net d n = .failed)
+    (hnf : forced d (p ++ n) = false) : state net d (p ++ n) = .failed := by
+  unfold state at *
+  by_cases hf : forced d n = true
+  · simp [hf] at h
+  · simp only [hf, hnf, if_false, Bool.false_eq_true] at *
+    obtain ⟨j, hj, hk⟩ := bip9_descendant net d p n
+    rw [hj]; exact winState_failed_stable net d _ _ (by rw [hk]; exact h) j
+
+/-- without an always-active height (and below 2^32-1 blocks) nothing is ever forced. -/
+theorem not_forced (d : Dep) (n : Node) (h0 : d.alwaysActive = 0) (hl : n.length < 4294967295) :
+    forced d n = false := by
+  simp [forced, effAlwaysActive, h0]; omega
+
+/-- the override exists: a deployment that FAILED on a chain is reported Active from the
+    always-active height on (btcd's testnet override, part of the deployment definition). -/
+theorem failed_overridden_only_by_always_active :
+    ∃ (net : Net) (d : Dep) (p n : Node), state net d n = .failed ∧ state net d (p ++ n) = .active :=
+  ⟨⟨2, 2⟩, ⟨0, some 10, some 20, 0, 0, 5⟩,
+   [⟨4, 0, 40⟩],
+   [⟨3, 0, 30⟩, ⟨2, 0, 30⟩, ⟨1, 0, 30⟩, ⟨0, 0, 30⟩], by decide, by decide⟩
+
+/-! ### next block version -/
+
+/-- `calcNextBlockVersion` (through the caches) computes the Spec's version. -/
+theorem nextVersion_eq_spec (net : Net) (cs : ChainSt) (n : Node) (hwf : Wf net n)
+    (h : AllOk net cs) :
+    (calcNextBlockVersion net cs n VB_TOP_BITS).2 = some (nextVersion net (cs.map (·.1)) n) :=
+  (calcNext_ok net n hwf cs VB_TOP_BITS h).1
+
+/-- The proposed version sets exactly: bit 29 (of the 001 top-bits pattern) and the bit of every
+    deployment whose state is Started or LockedIn (bit numbers ≥ 32 shift out and set nothing). -/
+theorem nextVersion_bits (net : Net) (deps : List Dep) (n : Node) (i : Nat) :
+    (nextVersion net deps n).testBit i =
+      (decide (i = 29) ||
+       deps.any (fun d => (state net d n == .started || state net d n == .lockedIn) &&
+                          (decide (d.bit < 32) && decide (d.bit = i)))) := by
+  rw [nextVersion_foldl, testBit_foldl]
+  have : VB_TOP_BITS = 2 ^ 29 := by decide
+  rw [this, Nat.testBit_two_pow]
+  congr 1
+  · simp [eq_comm]
+  · congr 1; funext d; rw [testBit_mask]; rfl
+
+/-! ### activation starts with the first block of a window -/
+
+/-- All blocks of one confirmation window on one branch get the same BIP9 state: `n.drop t` for
+    `t ≤ n.length % W` are exactly the predecessors of the blocks of `n`'s successor's window,
+    down to the last block of the previous window (whose successor is the window's first block).
+    So a rule gated on `state = Active` (validate.go consults `deploymentState(parent)`) switches
+    on exactly at the first block of the window, never in the middle. -/
+theorem active_from_first_block_of_window (net : Net) (d : Dep) (n : Node) (t : Nat)
+    (hW : 0 < net.window) (ht : t ≤ n.length % net.window) :
+    bip9State net d (n.drop t) = bip9State net d n := same_window net d n t hW ht
+
+/-- …and the first block of that window is where it changes: its state is one `step` from the
+    state of the blocks of the previous window. -/
+theorem window_state_is_one_step (net : Net) (d : Dep) (b : Node) (hW : 0 < net.window)
+    (hb : Boundary net.window b) :
+    bip9State net d b = step net d (bip9State net d (b.drop net.window)) b :=
+  bip9_step net d b hW hb
+
+/-- min activation height: LockedIn turns Active exactly when the next block's height reached it. -/
+theorem lockedIn_step (net : Net) (d : Dep) (b : Node) :
+    step net d .lockedIn b = (if d.minHeight = 0 ∨ d.minHeight ≤ b.length then .active else .lockedIn) := by
+  simp only [step, eligible]
+  by_cases h0 : d.minHeight = 0 <;> by_cases h1 : d.minHeight ≤ b.length <;> simp [h0, h1]
+
+/-! ### pins: constants and shipped tables regenerated from /repo -/
+open Generated.C14 in
+theorem pin_consts :
+    vbTopBits = (VB_TOP_BITS : Int) ∧ vbTopMask = (VB_TOP_MASK : Int) ∧ vbNumBits = (VB_NUM_BITS : Int) ∧
+    medianTimeBlocks = (MEDIAN_TIME_SPAN : Int) ∧ vbLegacyBlockVersion = 4 ∧ definedDeployments = 6 := by
+  decide
+
+open Generated.C14 in
+theorem pin_state_codes :
+    [thresholdDefined, thresholdStarted, thresholdLockedIn, thresholdActive, thresholdFailed,
+      numThresholdsStates] =
+    [(St.code .defined : Int), St.code .started, St.code .lockedIn, St.code .active, St.code .failed, 5] := by
+  decide
+
+open Generated.C14 in
+theorem pin_networks :
+    [(main_window, main_threshold), (test3_window, test3_threshold), (test4_window, test4_threshold),
+     (sig_window, sig_threshold), (reg_window, reg_threshold), (sim_window, sim_threshold)] =
+    Shipped.all.map (fun nd => ((nd.1.window : Int), (nd.1.threshold : Int))) := by decide
+
+open Generated.C14 in
+theorem pin_deployments :
+    [[main_testDummy, main_testDummyMinActivation, main_csv, main_segwit, main_taproot, main_testDummyAlwaysActive],
+     [test3_testDummy, test3_testDummyMinActivation, test3_csv, test3_segwit, test3_taproot, test3_testDummyAlwaysActive],
+     [test4_testDummy, test4_testDummyMinActivation, test4_csv, test4_segwit, test4_taproot, test4_testDummyAlwaysActive],
+     [sig_testDummy, sig_testDummyMinActivation, sig_csv, sig_segwit, sig_taproot, sig_testDummyAlwaysActive],
+     [reg_testDummy, reg_testDummyMinActivation, reg_csv, reg_segwit, reg_taproot, reg_testDummyAlwaysActive],
+     [sim_testDummy, sim_testDummyMinActivation, sim_csv, sim_segwit, sim_taproot, sim_testDummyAlwaysActive]] =
+    Shipped.all.map (fun nd => nd.2.map Shipped.encode) := by decide
+
+/-- every shipped network satisfies the window hypothesis of the theorems. -/
+theorem shipped_window_ok : ∀ nd ∈ Shipped.all, 2 ≤ nd.1.window := by decide
+
+/-- every shipped deployment has start ≤ timeout, except mainnet's DeploymentTestDummy whose start
+    time carries a stray digit (11991456010 instead of Core's 1199145601): that deployment is
+    FAILED from its first window boundary past 2008-12-31 on (reported DEFINED before the fix). -/
+theorem shipped_start_before_timeout :
+    ∀ nd ∈ Shipped.all, ∀ d ∈ nd.2, Shipped.startBeforeTimeout d = true ∨
+      (nd.1 = Shipped.mainNet ∧ d = Shipped.timed 28 11991456010 1230767999 0 0) := by decide
 
 end BV.C14
